@@ -420,7 +420,7 @@ func checkC03(c *Ctx) {
 	c.Explain = "C03 decided clause by clause: chunk framing, header layout and the VLQ codec by abstract interpretation against the SMF 1.0 layout (bit for bit, symbolic body/values), header count vs. chunks, end-of-track discipline, format promotion and size accounting by path rules on SSA, determinism by an effect scan of the write path. Not decided: that a strict parser recovers the event content of a chunk body (see C01 for the per-event codec), more than 65535 tracks, bodies >= 2 GiB."
 	c.Trusted = []string{"go/ssa", "E-abs transfer functions / summaries (bytes.Buffer, binary.Write)", "SMF 1.0 layout tables in the checker"}
 	c.Rule("C03.1", "chunk framing: the chunk serialiser hands the destination, in one Write, the 4 type bytes, len(body) as big-endian u32 and that same body", 1)
-	c.Rule("C03.2", "header count = chunks written: the count derives from len(Tracks), the chunk loop ranges over the same slice and flushes exactly one chunk per iteration", 3)
+	c.Rule("C03.2", "header count = chunks written: whole-file simulation of WriteTo with an arbitrary stale cached count — the header declares len(Tracks) and exactly one MTrk chunk per track follows, in order, nothing after the last", 1)
 	c.Rule("C03.3", "header layout: MThd, length 6, format u16be, track count u16be, division (metric: u16be with bit 15 = 0 after the 32767 clamp, 0 -> 960; time code: -(fps) as int8, subframes)", 3)
 	c.Rule("C03.4", "end-of-track discipline: every append to a Track is dominated by the not-closed test, Close appends the end-of-track constant, Add does not", 4)
 	c.Rule("C03.5", "determinism: no map range, clock, random source, goroutine or select reachable from WriteTo", 1)
@@ -436,7 +436,7 @@ func checkC03(c *Ctx) {
 	}
 	scope := minus(p.Reachable(writeTo), loggerFuncs(p))
 	ruleChunkFraming(c, "C03.1")
-	headerCountRule(c, "C03.2", writeTo)
+	runWriteToSim(c, "", "C03.2", "C03.9", "C03.6", "")
 	ruleHeaderWrite(c, "C03.3")
 	trackAppendDiscipline(c, "C03.4")
 	nondetScan(c, "C03.5", scope)
@@ -445,5 +445,7 @@ func checkC03(c *Ctx) {
 		ruleVLQ(c, "C03.7", "C03.7", "C03.7")
 	}
 	ruleEventEncode(c, "C03.8")
-	formatPromotion(c, "C03.9", writeTo)
+	ruleTrackFlush(c, "C03.8")
+	c.Rule("C03.10", "messages built by the library's own meta constructors are well-formed events: FF, type, canonical VLQ length, payload (= C15.1) — the writer emits message bytes verbatim, so a malformed constructor result makes the file invalid", 17)
+	c.include(checkC15, map[string]string{"C15.1": "C03.10"})
 }
